@@ -782,6 +782,14 @@ class BuiltinMixin:
             raise Unsupported("key_index: the dict was not iterated")
         return Val(INT, info(self.as_key(k)))
 
+    def x_bi_real_plus(self, args, kw, st, node):
+        """Specification only: the exact (real-number) sum of a float and an integer - no rounding, unlike the program's `+`."""
+        x, c = args
+        if c.ty not in (INT, FLOAT) or x.ty not in (INT, FLOAT):
+            raise Unsupported("real_plus: numbers only")
+        xt = z3.ToReal(x.t) if x.ty == INT else x.t
+        return Val(FLOAT, xt + (z3.ToReal(c.t) if c.ty == INT else c.t))
+
     def x_bi_same_value(self, args, kw, st, node):
         """Identity of JSON values (the very same value, not merely Python-equal)."""
         a, b = args
